@@ -13,7 +13,7 @@
 
    Statements only; proofs in Proofs/C14xRhs.v, C14xTop.v. *)
 From EoNV Require Import Prelude Samp Graph Aux Vec IC Wrappers Rhs2D VecP EventSIR EventSIRP EventSIRInv EventSIRChar EventSIRTop Discrete DiscreteP EventSIS
-     C14xDef C14xRhs C14xTop C14xRK C14xOut C14xWrap C14xSim C14xSis C14xEx.
+     C14xDef C14xRhs C14xTop C14xRK C14xOut C14xWrap C14xSim C14xSis C14xIso C14xEx.
 From Coq Require Import Permutation.
 
 Section C14x.
@@ -213,6 +213,14 @@ Theorem C14x_wrapper_row0_invariant : forall e rq full,
 Proof. exact (iso_row0_entry g g' phi WG WG' Hinj Hnodes Hadj). Qed.
 End C14x_wrappers.
 
+(* the decidable form of the isomorphism hypotheses, for graphs on 0..n-1 and a renaming given as a table (extended by the
+   identity): it is extracted and applied by harness/c14x.py to the relabelled copies the numerical halves of the check build *)
+Theorem C14x_iso_okb_sound : forall g g' tbl, iso_okb g g' tbl = true ->
+  (forall u v, phi_of tbl u = phi_of tbl v -> u = v) /\
+  Permutation (gnodes g') (map (phi_of tbl) (gnodes g)) /\
+  (forall u, In u (gnodes g) -> Permutation (gadj g' (phi_of tbl u)) (map (phi_of tbl) (gadj g u))).
+Proof. exact iso_okb_spec. Qed.
+
 (* non-vacuity: the triangle-with-pendant graph and its copy under u -> 100 - u with other node / adjacency order;
    G.edges() differs in order and orientation; an explicit-set SIR request produces a non-empty output on both *)
 Example C14x_iso_hypotheses_satisfiable :
@@ -399,6 +407,7 @@ Print Assumptions C14x_degree_helpers_invariant.
 Print Assumptions C14x_wrapper_outputs_invariant.
 Print Assumptions C14x_wrapper_outputs_identical.
 Print Assumptions C14x_wrapper_row0_invariant.
+Print Assumptions C14x_iso_okb_sound.
 Print Assumptions C14x_iso_hypotheses_satisfiable.
 Print Assumptions C14x_iso_edges_differ.
 Print Assumptions C14x_iso_output_nontrivial.
